@@ -6,6 +6,8 @@ import copy
 import json
 import math
 import os
+import collections
+import types
 import uuid as uuidlib
 
 from hypothesis import strategies as st
@@ -130,7 +132,8 @@ def ce_case(draw):
     npair = draw(st.integers(0, min(k, m)))
     pairing = draw(st.sampled_from(["same", "same", "same", "different", "different_equal_times"]))
     muts = draw(st.lists(st.sampled_from(MUTS), min_size=0, max_size=2))
-    return {"k": k, "m": m, "npair": npair, "pairing": pairing, "muts": muts, "salt": draw(st.integers(1, 2**32)), "pick": draw(st.integers(0, 10))}
+    return {"k": k, "m": m, "npair": npair, "pairing": pairing, "muts": muts, "salt": draw(st.integers(1, 2**32)), "pick": draw(st.integers(0, 10)),
+            "hash_twins": draw(st.integers(0, 3)) == 0}
 
 
 def check_ce(spec, ctx):
@@ -141,8 +144,18 @@ def check_ce(spec, ctx):
     ids = Ids(spec["salt"])
     rec, clips = base_objects(ids, 2, equal_times=spec["pairing"] == "different_equal_times")
     ses = [data.SoundEvent(uuid=ids(), recording=rec, geometry=data.TimeInterval(coordinates=[0.1 * i, 0.1 * i + 0.05])) for i in range(spec["k"] + spec["m"] + 2)]
-    anns = [data.SoundEventAnnotation(uuid=ids(), sound_event=ses[i], created_on="2020-01-01T00:00:00") for i in range(spec["k"])]
-    preds = [data.SoundEventPrediction(uuid=ids(), sound_event=ses[spec["k"] + j], score=0.5) for j in range(spec["m"])]
+    def twin_ids(n):
+        """n identifiers; when the spec asks for it, consecutive ones differ by 2^61 - 1 (Python's hash modulus), i.e. they are different
+        uuids with the same hash() - objects are told apart by identifier, never by hash"""
+        if not n:
+            return []
+        first = uuidlib.UUID(ids())
+        if spec.get("hash_twins"):
+            return [str(uuidlib.UUID(int=first.int + i * (2**61 - 1))) for i in range(n)]
+        return [str(first)] + [ids() for _ in range(n - 1)]
+
+    anns = [data.SoundEventAnnotation(uuid=u, sound_event=ses[i], created_on="2020-01-01T00:00:00") for i, u in enumerate(twin_ids(spec["k"]))]
+    preds = [data.SoundEventPrediction(uuid=u, sound_event=ses[spec["k"] + j], score=0.5) for j, u in enumerate(twin_ids(spec["m"]))]
     foreign_ann = data.SoundEventAnnotation(uuid=ids(), sound_event=ses[-1], created_on="2020-01-01T00:00:00")
     foreign_pred = data.SoundEventPrediction(uuid=ids(), sound_event=ses[-2], score=0.25)
     ca = data.ClipAnnotation(uuid=ids(), clip=clips[0], sound_events=anns, created_on="2020-01-01T00:00:00")
@@ -425,12 +438,16 @@ def check_clip(spec, ctx):
                 continue  # not value-preserving for these two numbers (float32 rounding, int of a fraction)
         except (ValueError, TypeError, OverflowError):
             continue
-        for path in ("ctor", "dict"):
+        for path in ("ctor", "dict", "MappingProxyType", "ChainMap"):
             try:
                 if path == "ctor":
                     data.Clip(uuid=ids(), recording=rec, start_time=rs, end_time=re_)
-                else:
+                elif path == "dict":
                     data.Clip.model_validate({"uuid": ids(), "recording": rec, "start_time": rs, "end_time": re_})
+                elif path == "MappingProxyType":  # read-only and layered mappings are mappings too
+                    data.Clip.model_validate(types.MappingProxyType({"uuid": ids(), "recording": rec, "start_time": rs, "end_time": re_}))
+                else:
+                    data.Clip.model_validate(collections.ChainMap({"start_time": rs, "end_time": re_}, {"uuid": ids(), "recording": rec}))
                 ok = True
             except pydantic.ValidationError:
                 ok = False
